@@ -1,14 +1,20 @@
 #!/bin/bash
 # Developer tool: applies every seeded change in turn to /repo, runs ALL quick checks against it, restores /repo.
 # Evidence of these runs goes to a scratch directory (not /verif/evidence). Result: seeded/MATRIX.tsv and "detected_by" in meta.json.
-cd /verif
-[ -z "$(git -C /repo status --short)" ] || { echo "/repo not clean"; exit 2; }
+# REPO=<dir> (default /repo) selects the tree the changes are applied to (e.g. the snapshot $VP_RUN_REPO of a background run);
+# the checks then read <dir>/src through CURIES_SRC.
+V="$(cd "$(dirname "$0")/.." && pwd)"
+cd "$V"
+REPO=${REPO:-/repo}
+[ "$REPO" = /repo ] || export CURIES_SRC=$REPO/src
+[ ! -d $REPO/.git ] || [ -z "$(git -C $REPO status --short)" ] || { echo "$REPO not clean"; exit 2; }
 OUT=seeded/MATRIX.tsv
-SCR=$(mktemp -d /verif/_build/matrix.XXXX)
+mkdir -p $V/_build
+SCR=$(mktemp -d $V/_build/matrix.XXXX)
 export VERIF_EVIDENCE_DIR=$SCR/ev
 SEEDS=${@:-$(ls seeded | grep '^S')}
 for ID in $SEEDS; do
-  git -C /repo apply /verif/seeded/$ID/patch.diff || { echo "$ID: patch does not apply"; continue; }
+  (cd $REPO && git apply $V/seeded/$ID/patch.diff) || { echo "$ID: patch does not apply"; continue; }
   row=""
   for i in 01 02 03 04 05 06 07 08 09 10 11 12 13 14 15 16 17 18 19 20; do
     ./check C$i quick > $SCR/out 2>&1; rc=$?
@@ -16,11 +22,11 @@ for ID in $SEEDS; do
       if grep "^VIOLATION" $SCR/out | grep -qv "no-failing-input-found"; then row="$row C$i"; else row="$row C$i(n)"; fi
     fi
   done
-  git -C /repo checkout -- .
+  (cd $REPO && git apply -R $V/seeded/$ID/patch.diff)
   echo -e "$ID\t$row" | tee -a $SCR/matrix
   /venv/bin/python - "$ID" "$row" <<'PY' 2>/dev/null
 import json,sys
-p=f"/verif/seeded/{sys.argv[1]}/meta.json"; m=json.load(open(p))
+p=f"seeded/{sys.argv[1]}/meta.json"; m=json.load(open(p))
 m["detected_by_quick_checks"]=sys.argv[2].split()
 m["detection_legend"]="Cxx = VIOLATION with a failing input as replay; Cxx(n) = VIOLATION ... no-failing-input-found (proof obligation or correspondence broke)"
 json.dump(m,open(p,"w"),indent=1)
@@ -36,4 +42,4 @@ old.update(new)
 open(sys.argv[2],"w").write("".join(f"{k}\t{v}\n" for k,v in sorted(old.items())))
 PY
 rm -rf $SCR
-git -C /repo status --short | head -3
+[ ! -d $REPO/.git ] || git -C $REPO status --short | head -3
